@@ -431,3 +431,112 @@ def replay(chk, path):
     print('monitor:', 'OutOfScope rules=%s first at event %d' % ([r for b, r in enumerate(RULES) if mask & (1 << b)], v[0]['badline'])
           if mask else 'in scope')
     return 1 if mask else 0
+
+
+# ------------------------------------------------------------------ development aids (python -m drivers.scope_ftp ...)
+MUTANTS = [
+    # (name, file, old text, new text)
+    ('glob-dir-level (the seeded fault)', 'wpull/processor/ftp.py',
+     'self._item_session.add_child_url(linked_url_info.url, link_type=LinkType.directory)',
+     'self._item_session.add_child_url(linked_url_info.url, link_type=LinkType.directory, level=level)'),
+    ('filters not consulted at check-out', 'wpull/processor/ftp.py',
+     "        if not verdict:\n            self._item_session.skip()\n            return\n\n        self._add_request_password(request)",
+     "        if not verdict and False:\n            self._item_session.skip()\n            return\n\n        self._add_request_password(request)"),
+    ('glob match inverted', 'wpull/processor/ftp.py',
+     'not fnmatch.fnmatchcase(file_entry.name, self._glob_pattern):', 'fnmatch.fnmatchcase(file_entry.name, self._glob_pattern):'),
+    ('--no-glob ignored', 'wpull/processor/ftp.py',
+     'if self._processor.fetch_params.glob and frozenset(filename) & GLOB_CHARS:', 'if frozenset(filename) & GLOB_CHARS:'),
+    ('glob files one level up', 'wpull/processor/ftp.py',
+     '            level = self._item_session.url_record.level\n', '            level = 0\n'),
+    ('RecursiveFilter level <= 1', 'wpull/urlfilter.py',
+     '        if url_table_record.level == 0:\n            return True\n        if url_table_record.inline_level:',
+     '        if url_table_record.level <= 1:\n            return True\n        if url_table_record.inline_level:'),
+    ('LevelFilter off by one', 'wpull/urlfilter.py',
+     'return url_table_record.level <= self._depth\n', 'return url_table_record.level <= self._depth + 1\n'),
+    ('ParentFilter always true', 'wpull/urlfilter.py',
+     "            return is_subdir(top_url_info.path, url_info.path,\n                             trailing_slash=True)",
+     "            return True or is_subdir(top_url_info.path, url_info.path,\n                             trailing_slash=True)"),
+    ('DirectoryFilter reject list ignored', 'wpull/urlfilter.py',
+     'if self._rejected and self._is_rejected(url_info):', 'if self._rejected and not self._rejected:'),
+    ('DirectoryFilter accept list matches string prefixes', 'wpull/urlfilter.py',
+     "            if is_subdir(dirname, url_info.path, wildcards=True):\n                return True\n\n    def _is_rejected",
+     "            if url_info.path.startswith(dirname):\n                return True\n\n    def _is_rejected"),
+    ('FilenameFilter reject list ignored', 'wpull/urlfilter.py',
+     'elif self._rejected and self.match(self._rejected, test_filename):\n            return False',
+     'elif self._rejected and self.match(self._rejected, test_filename):\n            return True'),
+    ('FilenameFilter accept list ignored', 'wpull/urlfilter.py',
+     '            else:\n                return self.match(self._accepted, test_filename)\n',
+     '            else:\n                return True\n'),
+    ('RegexFilter reject ignored', 'wpull/urlfilter.py',
+     'if self._rejected and re.search(self._rejected, url_info.url):\n            return False',
+     'if self._rejected and re.search(self._rejected, url_info.url):\n            return True'),
+    ('RegexFilter accept ignored', 'wpull/urlfilter.py',
+     'if self._accepted and not re.search(self._accepted, url_info.url):\n            return False',
+     'if self._accepted and not re.search(self._accepted, url_info.url):\n            return True'),
+    ('Demux verdict tolerates one failing filter', 'wpull/urlfilter.py',
+     "'verdict': len(failed) == 0,", "'verdict': len(failed) <= 1,"),
+    ('consult_filters ignores the verdict', 'wpull/processor/rule.py',
+     "        verdict = test_info['verdict']\n\n        if verdict:\n            reason = 'filters'",
+     "        verdict = True\n\n        if verdict:\n            reason = 'filters'"),
+    ('check_generic_request: redirect waiver for every request', 'wpull/processor/rule.py',
+     "        verdict, reason, test_info = self.consult_filters(\n            item_session.request.url_info,\n            item_session.url_record)\n\n        verdict, reason = self.consult_hook(item_session, verdict,\n                                            reason, test_info)\n\n        return verdict, reason\n\n    check_ftp_request",
+     "        verdict, reason, test_info = self.consult_filters(\n            item_session.request.url_info,\n            item_session.url_record)\n\n        verdict, reason = self.consult_hook(item_session, True,\n                                            reason, test_info)\n\n        return verdict, reason\n\n    check_ftp_request"),
+]
+
+
+def _standalone(tier):
+    """One private run of this part (evidence and replays go to a scratch directory); prints the signatures."""
+    import tempfile
+    import harness.report as R
+    R.EVIDENCE = tempfile.mkdtemp(prefix='c02ftp_ev_')
+    R.REPLAYS = tempfile.mkdtemp(prefix='c02ftp_rp_')
+    chk = R.Check('C02', tier, int(os.environ.get('VERIF_SEED') or 0))
+    t0 = time.time()
+    run(chk)
+    for v in chk.violations:
+        print('SIG ' + v['sig'] + ' x%d' % v['count'])
+    print('RESULT violations=%d drift=%d traces=%d wall=%.1fs' % (len(chk.violations), len(chk.drift), chk.traces, time.time() - t0))
+    for d in chk.drift[:5]:
+        print('DRIFT ' + d['what'][:300])
+    import shutil
+    shutil.rmtree(R.EVIDENCE, ignore_errors=True)
+    shutil.rmtree(R.REPLAYS, ignore_errors=True)
+
+
+def _mutants(names=None):
+    import subprocess
+    import shutil
+    repo = os.environ.get('VERIF_REPO', '/repo')
+    here = os.path.dirname(os.path.dirname(os.path.abspath(__file__)))
+    for i, (name, fn, old, new) in enumerate(MUTANTS):
+        if names and not any(n in name for n in names):
+            continue
+        wt = '/tmp/wt_c02ftp_m%d' % i
+        subprocess.run(['git', '-C', repo, 'worktree', 'remove', '--force', wt], capture_output=True)
+        subprocess.run(['git', '-C', repo, 'worktree', 'add', '--detach', wt, 'HEAD'], capture_output=True, check=True)
+        try:
+            path = os.path.join(wt, fn)
+            src = open(path).read()
+            if src.count(old) != 1:
+                print('MUTANT %-55s NOT APPLICABLE (%d matches)' % (name, src.count(old)))
+                continue
+            open(path, 'w').write(src.replace(old, new))
+            env = dict(os.environ, VERIF_REPO=wt, PYTHONPATH=here + ':' + wt, PYTHONHASHSEED='0')
+            p = subprocess.run(['/venv/bin/python', '-W', 'ignore', '-m', 'drivers.scope_ftp', 'check', 'quick'], cwd=here,
+                               env=env, capture_output=True, text=True)
+            sigs = [l[4:] for l in p.stdout.splitlines() if l.startswith('SIG ')]
+            res = [l for l in p.stdout.splitlines() if l.startswith('RESULT ')]
+            rules = sorted(set(json.loads(s.rsplit(' x', 1)[0]).get('rule', json.loads(s.rsplit(' x', 1)[0])['clause']) for s in sigs))
+            print('MUTANT %-55s %s rules=%s %s' % (name, 'CAUGHT' if sigs else 'MISSED', ','.join(rules), res[0] if res else p.stderr[-400:]))
+        finally:
+            subprocess.run(['git', '-C', repo, 'worktree', 'remove', '--force', wt], capture_output=True)
+            shutil.rmtree(wt, ignore_errors=True)
+
+
+if __name__ == '__main__':
+    import sys
+    from harness import wpull_compat  # noqa: F401
+    if sys.argv[1] == 'check':
+        _standalone(sys.argv[2] if len(sys.argv) > 2 else 'quick')
+    elif sys.argv[1] == 'mutants':
+        _mutants(sys.argv[2:])
